@@ -41,6 +41,13 @@ NOTES = {
  "C09-w7m1": "missed at first: every journal was dated 2019 or later. One in 25 round-trip cases is now dated before the year 1000; then caught (printed journal rejected).",
  "C14-w7m2": "missed at first: every generated account had at least two segments. 4% of the accounts are now top-level ones ('Assets', 'Liabilities', ...); then caught by C14, C03 and C16 (panic).",
  "C05-w7m2": "C05 itself stays silent (the change is wrong in every order, so the verdict does not depend on order); caught by C04, whose oracle is the reference checker.",
+ "C18-w8m1": "missed at first: every fault hit one operation only, so the retry after the unlink succeeded. C18 now also fails each kind of operation persistently from every operation on (simfs Fault.Sticky), and places a crash at every operation of the error-handling path after each single fault (fault-then-crash); then caught (target-missing:persistent).",
+ "C01-w8m2": "missed by C01 at first (caught by C02): C01 drew no mappings at all, although -m with a level of at least 1 and --remap hide nothing. A third of C01's cases now draw them; then caught by C01 too (delta-nonzero).",
+ "C12-w8m2": "missed at first: all price declarations were dated 2020. C12 now mixes in declarations dated 1000-1650 and 2270-2900; then caught (balance-value-not-a-chain-product).",
+ "C06-w8m1": "missed at first: no portfolio had a total of exactly zero. weights-ties now has a long/short book in whole numbers whose total is zero for a while (weights +Inf, -Inf, NaN), with class names on either side of the others; then caught (line-order).",
+ "C20-w8m1": "missed at first: strconv parses 'NaN', and NaN compared false against every tolerance; no portfolio ever had a negative net value. The oracles are now NaN-safe and returns-noflows draws leveraged books; then caught (wrong-return: NaN%).",
+ "C20-w8m2": "missed at first: columns whose balance total is zero were skipped, and only the valuation commodity was ever drained. The weights sub-check now liquidates whole portfolios at some rate and demands that a date without any holding shows no weight; then caught (weight-without-holdings).",
+ "C03-w8m2": "missed by C03 at first (caught by C19's registry linearizability check): C03 never passed --remap. 15% of C03's cases now do; then caught by C03 too (expected-row-missing).",
 }
 DROPPED = [
  "C04 (wave 7, first change): Builder.Build skips the day sort while days 'arrive in ascending order'; the same idea as C05-m2 (caught by C04, C05, C19).",
